@@ -14,6 +14,7 @@ type modTarget struct {
 	sort string
 	base Term
 	all  bool // whole heap variable
+	vacuous *Term // condition under which the target denotes no location at all (elems of a slice without capacity)
 }
 
 // funcKey returns (package path, contract key) of an SSA function.
@@ -614,6 +615,9 @@ func (fr *Frame) frameCheckTarget(t modTarget, callee string, ins ssa.Instructio
 	if !t.all && t.base.S != "" {
 		alts = append(alts, Term{fmt.Sprintf("(not (old_alloc %s))", fr.rootOf(t.base).S), SBool})
 	}
+	if t.vacuous != nil {
+		alts = append(alts, *t.vacuous)
+	}
 	for _, m := range vc.modSet {
 		if m.heap == t.heap {
 			if m.all {
@@ -1138,6 +1142,11 @@ func (fr *Frame) pureAxioms(c *Contract, name string, sig *types.Signature, recv
 		if err != nil || len(vc.items) != nItems {
 			// state-dependent or not expressible: keep call-site assumption only
 			vc.items = vc.items[:nItems]
+			continue
+		}
+		if strings.Contains(t.S, "(forall ") || strings.Contains(t.S, "(exists ") {
+			// a quantified definition (e.g. HasSuffix spelled out character by character) as a global axiom feeds the
+			// solver's instantiation loop; it is assumed for each call in the code instead (applyContract)
 			continue
 		}
 		te.pre.Add(fmt.Sprintf("ax:%s#e%d", name, k), fmt.Sprintf("(assert (forall (%s) (! %s :pattern (%s))))", strings.Join(binders, " "), t.S, ap.S))
